@@ -96,8 +96,9 @@ def run(ctx, prefix, n_hist, tmp, *, max_sessions=3, bases=None, check_py7zr=Tru
         base = None
         base_members = []
         bname = None
-        if bases and rng.random() < 0.4:
-            bname, bdata, bmembers, bpw = rng.choice(bases)
+        if bases and (h < len(bases) or rng.random() < 0.4):
+            # every base is used at least once (the first histories), then at random
+            bname, bdata, bmembers, bpw = bases[h] if h < len(bases) else rng.choice(bases)
             if bpw is None or bpw == password or password is None:
                 base, base_members = bdata, bmembers
                 password = bpw if bpw else password
